@@ -766,6 +766,15 @@ func (e *clientEngine) spontaneous() {
 		}
 		m := stun.MustBuild(stun.NewTransactionIDSetter(id), stun.BindingSuccess)
 		d = &cDatagram{data: append([]byte(nil), m.Raw...), kind: "one-bit-off-id-response"}
+		if base != nil && r.Pct(35, "odd-class-same-id") {
+			// a message of another class (indication, request, error response)
+			// that carries the id of a transaction in flight: it is "the message
+			// with the same id" and completes that transaction
+			classes := []stun.MessageClass{stun.ClassIndication, stun.ClassRequest, stun.ClassErrorResponse}
+			cl := classes[r.Choose(len(classes), "odd-class")]
+			m := stun.MustBuild(stun.NewTransactionIDSetter(base.id), stun.NewType(stun.MethodBinding, cl))
+			d = &cDatagram{data: append([]byte(nil), m.Raw...), kind: "same-id-" + cl.String()}
+		}
 	case 4: // late / duplicate response for a finished transaction
 		var base *cTx
 		for _, t := range e.txs {
